@@ -1059,3 +1059,291 @@ Proof.
   - rewrite (bind_ok _ _ _ _ _ (vec_get_ok s3 vid l Hl)). reflexivity.
   - rewrite Hvv. rewrite !map_map. reflexivity.
 Qed.
+
+(* ============================================================== constructors *)
+Lemma with_sp_same s : with_sp s (sp s) = s.
+Proof. destruct s; reflexivity. Qed.
+
+Lemma pop_n_spec l : forall acc s, stack_top (stack s) (sp s) l ->
+  exists n, pop_n (length l) acc s = ROk (rev l ++ acc) (with_sp s n).
+Proof.
+  induction l as [|v r IH]; intros acc s H; cbn [length pop_n].
+  - exists (sp s). unfold ret. now rewrite with_sp_same.
+  - rewrite (bind_ok _ _ _ _ _ (pop_raw_top s v r H)).
+    destruct (IH (v :: acc) (with_sp s (sp s - 1)) (stack_top_tail _ _ _ _ H)) as (n & En).
+    exists n. rewrite En. cbn [rev]. rewrite <- app_assoc. reflexivity.
+Qed.
+
+(* a new vector object *)
+Lemma new_vec_fields t l :
+  values_are_refs t -> Forall (val_ok t) l ->
+  values_are_refs (with_store t (snd (new_vec (st t) l))) /\
+  pres t (with_store t (snd (new_vec (st t) l))) /\
+  tget (vecs (st t)) (next_id (st t)) = None /\
+  tget (vecs (st (with_store t (snd (new_vec (st t) l))))) (next_id (st t)) = Some l.
+Proof.
+  intros W Hl. pose proof W as (Hok & Hpairs & Hvecs & Hvc & Hid).
+  set (vid := next_id (st t)).
+  set (t' := with_store t (snd (new_vec (st t) l))).
+  assert (Hnone : tget (vecs (st t)) vid = None) by (apply Hid; subst vid; lia).
+  assert (Hother : forall u, u <> vid -> tget (vecs (st t')) u = tget (vecs (st t)) u).
+  { intros u Hne. cbn [t' with_store st new_vec snd vecs].
+    rewrite tget_tset_other; [reflexivity|]. intros E. apply Hne. symmetry. exact E. }
+  assert (Hsame : tget (vecs (st t')) vid = Some l).
+  { cbn [t' with_store st new_vec snd vecs]. apply tget_tset_same. }
+  assert (P : pres t t').
+  { unfold pres; refine (conj _ (conj _ (conj _ _))); auto.
+    intros u lu Hu. rewrite Hother; [exact Hu|]. intros ->. rewrite Hnone in Hu. discriminate. }
+  refine (conj _ (conj P (conj Hnone Hsame))).
+  unfold values_are_refs; refine (conj Hok (conj _ (conj _ (conj _ _)))).
+  - intros q a d Hq. destruct (Hpairs _ _ _ Hq). split; apply (target_ok_hp t t'); auto.
+  - intros u lu Hu. destruct (N.eq_dec u vid) as [->|Hne].
+    + rewrite Hsame in Hu. injection Hu as <-. eapply Forall_impl; [|exact Hl]. intros x. now apply val_ok_hp.
+    + rewrite Hother in Hu by assumption. specialize (Hvecs _ _ Hu).
+      eapply Forall_impl; [|exact Hvecs]. intros x. now apply val_ok_hp.
+  - intros q u Hq. destruct (N.eq_dec u vid) as [->|Hne].
+    + rewrite Hsame. discriminate.
+    + rewrite Hother by assumption. apply (Hvc q u Hq).
+  - intros u Hu. cbn [t' with_store st new_vec snd next_id] in Hu.
+    rewrite Hother by (subst vid; lia). apply Hid. lia.
+Qed.
+
+(* the CALL wrapper around a builtin that ends by creating the vector [l] *)
+Lemma wrap_new_vector t l :
+  values_are_refs t -> Forall (val_ok t) l ->
+  exists p vid s',
+    (dom r <- vec_new l; match r with VPtr q => ret (VPtr q) | v => hmaybe_put v end) t = ROk (VPtr p) s' /\
+    absv s' (VPtr p) = ALoc (LVec vid) /\ a_vec (abs t) vid = None /\
+    a_vec (abs s') vid = Some (map (absv t) l) /\
+    pres t s' /\ values_are_refs s' /\ ~ live (hp t) p /\ target_ok s' p.
+Proof.
+  intros W Hl.
+  destruct (new_vec_fields t l W Hl) as (W1 & P1 & Hnone & Hsame).
+  set (vid := next_id (st t)) in *.
+  set (t1 := with_store t (snd (new_vec (st t) l))) in *.
+  assert (Hn : new_cell_ok t1 (VVec vid)) by (cbn [new_cell_ok]; rewrite Hsame; discriminate).
+  destruct (hput_new t1 _ W1 Hn) as (p & h' & E & F).
+  destruct (fresh_wf t1 _ p h' W1 Hn F) as (W2 & T2).
+  pose proof (fresh_pres _ _ _ _ F) as P2.
+  exists p, vid, (with_heap t1 h').
+  refine (conj _ (conj _ (conj _ (conj _ (conj _ (conj W2 (conj _ T2))))))).
+  - unfold bindM, vec_new. cbn [new_vec]. fold vid. exact E.
+  - destruct F as (_ & _ & _ & _ & Hg & _). cbn [absv with_heap hp]. now rewrite Hg.
+  - cbn [abs a_vec]. fold vid. now rewrite Hnone.
+  - rewrite (pres_a_vec t1 (with_heap t1 h') vid l W1 P2 Hsame).
+    cbn [abs a_vec]. rewrite Hsame. reflexivity.
+  - eapply pres_trans; eauto.
+  - destruct F as (_ & Hnl & _). exact Hnl.
+Qed.
+
+Theorem vector_refines s args :
+  values_are_refs s -> Forall (val_ok s) args -> called_with s args ->
+  exists p vid s', call_builtin vector s = ROk (VPtr p) s' /\
+    absv s' (VPtr p) = ALoc (LVec vid) /\ a_vec (abs s) vid = None /\
+    a_vec (abs s') vid = Some (map (absv s) args) /\
+    pres s s' /\ values_are_refs s' /\ ~ live (hp s) p /\ target_ok s' p.
+Proof.
+  intros W Hargs H. unfold called_with in H.
+  set (s1 := with_sp s (sp s - 1)).
+  pose proof (stack_top_tail _ _ _ _ H) as H1.
+  destruct (pop_n_spec (rev args) [] s1 H1) as (n & En).
+  rewrite rev_involutive, app_nil_r in En.
+  destruct (wrap_new_vector (with_sp s1 n) args W Hargs) as (p & vid & s' & E & R).
+  exists p, vid, s'. split; [|exact R].
+  unfold call_builtin, vector.
+  assert (Hp : pop_argc 0 None s = ROk (len args) s1).
+  { rewrite (pop_argc_top _ _ _ _ _ H). rewrite (proj2 (N.ltb_ge _ 0) (N.le_0_l _)). reflexivity. }
+  unfold bindM at 1. unfold bindM at 1. rewrite Hp.
+  unfold bindM at 1. unfold len. rewrite Nat2N.id, <- (rev_length args), En.
+  exact E.
+Qed.
+
+(* ================================================== store / retrieve identity *)
+(* A value stored in a container is retrieved as the same abstract value — for a heap
+   object: the same LOCATION —, through every alias of the container. *)
+Lemma wf_hp_st s t : hp t = hp s -> st t = st s -> values_are_refs s -> values_are_refs t.
+Proof.
+  intros E1 E2 (Hok & Hpairs & Hvecs & Hvc & Hid).
+  unfold values_are_refs, target_ok. rewrite E1, E2.
+  refine (conj Hok (conj Hpairs (conj _ (conj Hvc Hid)))).
+  intros vid l Hl. specialize (Hvecs _ _ Hl). eapply Forall_impl; [|exact Hvecs].
+  intros x. now apply val_ok_hp.
+Qed.
+
+Theorem cons_then_car_cdr fuel s a b :
+  values_are_refs s -> val_ok s a -> val_ok s b -> called_with s [a; b] ->
+  exists p s', call_builtin cons_ s = ROk (VPtr p) s' /\ values_are_refs s' /\
+    forall t, hp t = hp s' -> called_with t [VPtr p] ->
+      (exists r t', car fuel t = ROk r t' /\ absv t' r = absv s a) /\
+      (exists r t', cdr fuel t = ROk r t' /\ absv t' r = absv s b).
+Proof.
+  intros W Ha Hb H.
+  destruct (cons_refines s a b W Ha Hb H) as (p & s' & E & Hnl & Hp & P & W' & T' & Hst).
+  exists p, s'. refine (conj E (conj W' _)). intros t Ehp Ht.
+  assert (Ea : absv t (VPtr p) = ALoc (LPair p)).
+  { rewrite (absv_hp s' t _ Ehp). cbn [abs a_pair] in Hp. cbn [absv].
+    destruct (heap_get (hp s') p) as [c| | |]; try discriminate. destruct c; try discriminate. reflexivity. }
+  split.
+  - pose proof (car_refines fuel t (VPtr p) Ht) as C. rewrite Ea in C.
+    destruct C as (x & d & r & t' & Hx & Ec & Hr & _). exists r, t'. split; [exact Ec|].
+    rewrite (abs_pair_hp s' t p Ehp), Hp in Hx. now injection Hx as <- <-.
+  - pose proof (cdr_refines fuel t (VPtr p) Ht) as C. rewrite Ea in C.
+    destruct C as (x & d & r & t' & Hx & Ec & Hr & _). exists r, t'. split; [exact Ec|].
+    rewrite (abs_pair_hp s' t p Ehp), Hp in Hx. now injection Hx as <- <-.
+Qed.
+
+Theorem set_car_then_car fuel s pv o p :
+  values_are_refs s -> val_ok s pv -> val_ok s o -> called_with s [pv; o] ->
+  absv s pv = ALoc (LPair p) ->
+  exists s', set_car s = ROk VVoid s' /\ values_are_refs s' /\
+    forall t alias, hp t = hp s' -> val_ok s alias -> absv s alias = ALoc (LPair p) ->
+      called_with t [alias] ->
+      exists r t', car fuel t = ROk r t' /\ absv t' r = absv s o.
+Proof.
+  intros W Hpv Ho H Ea.
+  pose proof (set_car_refines s pv o W Hpv Ho H) as R. rewrite Ea in R.
+  destruct R as (x & d & s' & Hx & E & Hp & Hfr & Hfv & Hval & W').
+  exists s'. refine (conj E (conj W' _)). intros t alias Ehp Hal Eal Ht.
+  pose proof (car_refines fuel t alias Ht) as C.
+  rewrite (absv_hp s' t _ Ehp), (proj2 (Hval _ Hal)), Eal in C.
+  destruct C as (x' & d' & r & t' & Hx' & Ec & Hr & _). exists r, t'. split; [exact Ec|].
+  rewrite (abs_pair_hp s' t p Ehp), Hp in Hx'. now injection Hx' as <- <-.
+Qed.
+
+Theorem set_cdr_then_cdr fuel s pv o p :
+  values_are_refs s -> val_ok s pv -> val_ok s o -> called_with s [pv; o] ->
+  absv s pv = ALoc (LPair p) ->
+  exists s', set_cdr s = ROk VVoid s' /\ values_are_refs s' /\
+    forall t alias, hp t = hp s' -> val_ok s alias -> absv s alias = ALoc (LPair p) ->
+      called_with t [alias] ->
+      exists r t', cdr fuel t = ROk r t' /\ absv t' r = absv s o.
+Proof.
+  intros W Hpv Ho H Ea.
+  pose proof (set_cdr_refines s pv o W Hpv Ho H) as R. rewrite Ea in R.
+  destruct R as (x & d & s' & Hx & E & Hp & Hfr & Hfv & Hval & W').
+  exists s'. refine (conj E (conj W' _)). intros t alias Ehp Hal Eal Ht.
+  pose proof (cdr_refines fuel t alias Ht) as C.
+  rewrite (absv_hp s' t _ Ehp), (proj2 (Hval _ Hal)), Eal in C.
+  destruct C as (x' & d' & r & t' & Hx' & Ec & Hr & _). exists r, t'. split; [exact Ec|].
+  rewrite (abs_pair_hp s' t p Ehp), Hp in Hx'. now injection Hx' as <- <-.
+Qed.
+
+Lemma nth_error_list_set_nat_same {A} (l : list A) i x :
+  (i < length l)%nat -> nth_error (list_set_nat l i x) i = Some x.
+Proof. revert i; induction l as [|y r IH]; intros [|i] H; cbn in *; try lia; auto. apply IH. lia. Qed.
+
+Lemma abs_vec_hp_st s t vid : hp t = hp s -> st t = st s -> a_vec (abs t) vid = a_vec (abs s) vid.
+Proof.
+  intros E1 E2. cbn [abs a_vec]. rewrite E2. destruct (tget (vecs (st s)) vid); [|reflexivity].
+  f_equal. apply map_ext. intros x. now apply absv_hp.
+Qed.
+
+Theorem vector_set_then_ref s v k x vid i :
+  values_are_refs s -> val_ok s v -> val_ok s k -> val_ok s x -> called_with s [v; k; x] ->
+  absv s v = ALoc (LVec vid) -> aindex (absv s k) = Some i ->
+  forall xs, a_vec (abs s) vid = Some xs -> i < N.of_nat (length xs) ->
+  exists s', vector_set s = ROk VVoid s' /\ values_are_refs s' /\
+    forall t alias k', hp t = hp s' -> st t = st s' ->
+      val_ok s alias -> absv s alias = ALoc (LVec vid) ->
+      val_ok s k' -> aindex (absv s k') = Some i ->
+      called_with t [alias; k'] ->
+      exists r t', vector_ref t = ROk r t' /\ absv t' r = absv s x.
+Proof.
+  intros W Hv Hk Hx H Ea Ei xs Hxs Hlt.
+  pose proof (vector_set_refines s v k x W Hv Hk Hx H) as R. rewrite Ea, Ei in R.
+  destruct R as (xs' & Hxs' & R). rewrite Hxs in Hxs'. injection Hxs' as <-.
+  apply N.ltb_lt in Hlt. rewrite Hlt in R. apply N.ltb_lt in Hlt.
+  destruct R as (s' & E & Hvv & Hvo & Hpo & Ehp & W').
+  exists s'. refine (conj E (conj W' _)). intros t alias k' E1 E2 Hal Eal Hk' Ek' Ht.
+  assert (Wt : values_are_refs t) by (eapply wf_hp_st; eauto).
+  assert (Eh : hp t = hp s) by congruence.
+  pose proof (vector_ref_refines t alias k' Wt (val_ok_hp s t _ Eh Hal) (val_ok_hp s t _ Eh Hk') Ht) as C.
+  rewrite (absv_hp s t _ Eh), Eal in C.
+  destruct C as (ys & Hys & C). rewrite (absv_hp s t _ Eh), Ek' in C.
+  rewrite (abs_vec_hp_st s' t vid E1 E2), Hvv in Hys. injection Hys as <-.
+  rewrite nth_error_list_set_nat_same in C by lia.
+  destruct C as (r & t' & Ec & Hr & _). exists r, t'. split; [exact Ec | exact Hr].
+Qed.
+
+Theorem vector_fill_then_ref s v x vid :
+  values_are_refs s -> val_ok s v -> val_ok s x -> called_with s [v; x] ->
+  absv s v = ALoc (LVec vid) ->
+  forall xs, a_vec (abs s) vid = Some xs ->
+  exists s', vector_fill s = ROk VVoid s' /\ values_are_refs s' /\
+    forall t alias k' i, hp t = hp s' -> st t = st s' ->
+      val_ok s alias -> absv s alias = ALoc (LVec vid) ->
+      val_ok s k' -> aindex (absv s k') = Some i -> i < N.of_nat (length xs) ->
+      called_with t [alias; k'] ->
+      exists r t', vector_ref t = ROk r t' /\ absv t' r = absv s x.
+Proof.
+  intros W Hv Hx H Ea xs Hxs.
+  pose proof (vector_fill_refines s v x W Hv Hx H) as R. rewrite Ea in R.
+  destruct R as (xs' & s' & Hxs' & E & Hvv & Hvo & Hpo & Ehp & W').
+  rewrite Hxs in Hxs'. injection Hxs' as <-.
+  exists s'. refine (conj E (conj W' _)). intros t alias k' i E1 E2 Hal Eal Hk' Ek' Hlt Ht.
+  assert (Wt : values_are_refs t) by (eapply wf_hp_st; eauto).
+  assert (Eh : hp t = hp s) by congruence.
+  pose proof (vector_ref_refines t alias k' Wt (val_ok_hp s t _ Eh Hal) (val_ok_hp s t _ Eh Hk') Ht) as C.
+  rewrite (absv_hp s t _ Eh), Eal in C.
+  destruct C as (ys & Hys & C). rewrite (absv_hp s t _ Eh), Ek' in C.
+  rewrite (abs_vec_hp_st s' t vid E1 E2), Hvv in Hys. injection Hys as <-.
+  rewrite nth_error_map in C.
+  destruct (nth_error xs (N.to_nat i)) eqn:En.
+  - cbn [option_map] in C. destruct C as (r & t' & Ec & Hr & _). exists r, t'. split; [exact Ec | exact Hr].
+  - exfalso. apply nth_error_None in En. lia.
+Qed.
+
+Theorem vector_then_ref s args :
+  values_are_refs s -> Forall (val_ok s) args -> called_with s args ->
+  exists p s', call_builtin vector s = ROk (VPtr p) s' /\ values_are_refs s' /\
+    forall t k' i a, hp t = hp s' -> st t = st s' ->
+      val_ok s k' -> aindex (absv s k') = Some i -> nth_error args (N.to_nat i) = Some a ->
+      called_with t [VPtr p; k'] ->
+      exists r t', vector_ref t = ROk r t' /\ absv t' r = absv s a.
+Proof.
+  intros W Hargs H.
+  destruct (vector_refines s args W Hargs H) as (p & vid & s' & E & Ep & Hnone & Hvv & P & W' & Hnl & T').
+  exists p, s'. refine (conj E (conj W' _)). intros t k' i a E1 E2 Hk' Ek' Hn Ht.
+  assert (Wt : values_are_refs t) by (eapply wf_hp_st; eauto).
+  assert (Hk2 : val_ok t k') by (apply (val_ok_hp s' t _ E1); eapply pres_val_ok; eauto).
+  assert (Hp2 : val_ok t (VPtr p)) by (apply (val_ok_hp s' t _ E1); exact T').
+  pose proof (vector_ref_refines t (VPtr p) k' Wt Hp2 Hk2 Ht) as C.
+  rewrite (absv_hp s' t _ E1), Ep in C.
+  destruct C as (ys & Hys & C).
+  rewrite (absv_hp s' t _ E1), (pres_absv s s' k' P Hk'), Ek' in C.
+  rewrite (abs_vec_hp_st s' t vid E1 E2), Hvv in Hys. injection Hys as <-.
+  rewrite nth_error_map, Hn in C. cbn [option_map] in C.
+  destruct C as (r & t' & Ec & Hr & _). exists r, t'. split; [exact Ec | exact Hr].
+Qed.
+
+(* ================================================================ non-vacuity *)
+Lemma wf_empty n : 0 < n -> values_are_refs (vm_empty n).
+Proof.
+  intros Hn. unfold values_are_refs, vm_empty; cbn [hp st heap_new store_empty vecs next_id].
+  assert (Hnone : forall (A : Type) i, @tget A tempty i = None).
+  { intros A i. unfold tget, tempty. apply PositiveMap.gempty. }
+  refine (conj _ (conj _ (conj _ (conj _ _)))).
+  - unfold heap_ok, heap_new; cbn [chunk hlen free_list cells]. refine (conj Hn (conj _ (conj _ (conj _ _)))).
+    + lia.
+    + apply range_asc_nodup.
+    + intros p Hp. apply range_asc_in in Hp. lia.
+    + intros p _. unfold blank; cbn [cells]. now rewrite Hnone.
+  - intros p a d Hg. unfold heap_get, heap_new in Hg; cbn [hlen cells] in Hg. rewrite Hnone in Hg.
+    destruct (p <? n); discriminate.
+  - intros vid l Hl. rewrite Hnone in Hl. discriminate.
+  - intros p vid Hg. unfold heap_get, heap_new in Hg; cbn [hlen cells] in Hg. rewrite Hnone in Hg.
+    destruct (p <? n); discriminate.
+  - intros vid _. apply Hnone.
+Qed.
+
+(* the machine after pushing [args] and their count on an empty machine *)
+Definition ex_state (args : list vcell) : vm :=
+  match (dom _ <- push_all args; push (VArgc (len args))) (vm_empty 16) with
+  | ROk _ s => s
+  | _ => vm_empty 16
+  end.
+
+Lemma ex_state_ok args :
+  hp (ex_state args) = hp (vm_empty 16) -> st (ex_state args) = st (vm_empty 16) ->
+  values_are_refs (ex_state args).
+Proof. intros E1 E2. eapply wf_hp_st; eauto. apply wf_empty. lia. Qed.
